@@ -68,6 +68,53 @@ def poller(setup, npolls, out):
     return run
 
 
+def truth_complete(setup):
+    """batch ids whose result file holds a complete pickle right now (read without the proxy)"""
+    import re as _re
+    done = set()
+    for f in fsproxy._real["listdir"](setup.results):
+        m = _re.match(r"^xyz-result-(\d+)\.jbdmp$", f)
+        if m:
+            try:
+                with fsproxy._real["open"](os.path.join(setup.results, f), "rb") as fh:
+                    pickle.load(fh)
+                done.add(int(m.group(1)))
+            except Exception:
+                pass
+    return done
+
+
+def full_poller(setup, npolls, out):
+    """A poller that asks every progress query; after each answer the truth of that very instant is recorded (no other
+    actor can move between the query's last file operation and this)."""
+    crop = setup.handle()
+
+    def run():
+        for _ in range(npolls):
+            n = crop.num_results
+            out.append(("num_results", n, sorted(truth_complete(setup))))
+            m = tuple(crop.missing_results())
+            out.append(("missing_results", list(m), sorted(truth_complete(setup))))
+            r = bool(crop.is_ready_to_reap())
+            out.append(("is_ready_to_reap", r, sorted(truth_complete(setup))))
+        return "polled"
+    return run
+
+
+def judge_full_poller(setup, out):
+    allb = set(range(1, setup.nb + 1))
+    for call, val, truth in out:
+        truth = set(truth)
+        if call == "num_results" and val > len(truth):
+            return "num_results=%d although only the results %r were complete at that instant" % (val, sorted(truth)), "poller_overcount"
+        if call == "missing_results" and not (allb - set(val)) <= truth:
+            return ("missing_results()=%r counts batch(es) %r as finished although only %r were complete at that instant" % (
+                val, sorted((allb - set(val)) - truth), sorted(truth))), "poller_missing"
+        if call == "is_ready_to_reap" and val and truth != allb:
+            return "is_ready_to_reap() is True although only %r were complete" % sorted(truth), "poller_ready"
+    return None, None
+
+
 def record_programs(setup, writers):
     """writers: list of (name, batch, fakepid).  Runs each grower alone under the proxy and
     returns {name: [op, ...]} with op = (kind, p[, q]); temp names share one registry."""
@@ -88,7 +135,7 @@ def record_programs(setup, writers):
     return progs, names
 
 
-def model_constants(progs, writers, nb, npolls, with_reaper=True, max_sleeps=2, max_crashes=0, record=False):
+def model_constants(progs, writers, nb, npolls, with_reaper=True, max_sleeps=2, max_crashes=0, record=False, pollers=None):
     names = set("res%d" % i for i in range(1, nb + 1))
     counted = set(names)
     P = {}
@@ -119,12 +166,12 @@ def model_constants(progs, writers, nb, npolls, with_reaper=True, max_sleeps=2, 
         BatchOf=tlc.Raw("(" + " @@ ".join('"%s" :> %d' % (w, b) for w, b, _ in writers) + ")"),
         FullOf=tlc.Raw("(" + " @@ ".join('"%s" :> [n \\in mc_Names |-> %s]' % (
             w, " ".join("IF n = \"%s\" THEN %d ELSE" % (n, c) for n, c in sorted(full[w].items())) + " 0") for w in sorted(P)) + ")"),
-        NB=nb, Names=names, Counted=counted, NPolls=npolls, MaxSleeps=max_sleeps, WithReaper=with_reaper,
+        NB=nb, Names=names, Counted=counted, Pollers=set(pollers or ()) or tlc.Raw("{}"), NPolls=npolls, MaxSleeps=max_sleeps, WithReaper=with_reaper,
         MaxCrashes=max_crashes, Record=record,
         Pre=tlc.Raw('[n \\in mc_Names |-> "absent"]'), SowFiles=tlc.Raw("{}"), DataFiles=tlc.Raw("{}"), WithRecovery=False)
     # Names must be defined before FullOf in the generated module: dict order is preserved
     ordered = {}
-    for k in ("Names", "Writers", "Prog", "BatchOf", "FullOf", "NB", "Counted", "NPolls", "MaxSleeps", "WithReaper", "MaxCrashes", "Record",
+    for k in ("Names", "Writers", "Prog", "BatchOf", "FullOf", "NB", "Counted", "Pollers", "NPolls", "MaxSleeps", "WithReaper", "MaxCrashes", "Record",
               "Pre", "SowFiles", "DataFiles", "WithRecovery"):
         ordered[k] = consts[k]
     return ordered
@@ -162,7 +209,7 @@ def schedule_from_trace(trace):
     return steps
 
 
-def execute(setup, writers, steps, npolls, with_reaper=True):
+def execute(setup, writers, steps, npolls, with_reaper=True, fullpoll=False):
     """Run the real actors under the given schedule.  Returns a dict of observations."""
     setup.clear_results()
     s = fsproxy.Sched(setup.results)
@@ -172,7 +219,10 @@ def execute(setup, writers, steps, npolls, with_reaper=True):
         s.add(name, grower(setup, batch), pid)
     if with_reaper:
         s.add("reaper", reaper(setup), 7001)
-    if npolls:
+    fullout = []
+    if fullpoll:
+        s.add("poller", full_poller(setup, max(1, npolls), fullout), 7002)
+    elif npolls:
         s.add("poller", poller(setup, npolls, polled), 7002)
 
     def on_list(actor):
@@ -199,7 +249,7 @@ def execute(setup, writers, steps, npolls, with_reaper=True):
             finished = s.finish_round_robin()
         finally:
             s.release_all()
-    obs = dict(drift=drift, polled=polled, poll_obs=poll_obs, log=list(s.log))
+    obs = dict(drift=drift, polled=polled, poll_obs=poll_obs, log=list(s.log), fullpoll=fullout)
     for a in s.actors.values():
         obs[a.name] = dict(result=a.result, exc=a.exc, trace=list(a.trace), state=a.state)
     return obs
@@ -215,6 +265,10 @@ def judge(setup, obs, with_reaper, expect_reaper_done=True):
         if r["state"] == "done" and r["result"] is not None:
             if tuple(r["result"]) != setup.expect:
                 return ("reap(wait=True) returned %r, the direct run gives %r" % (r["result"], setup.expect), "reaper_wrong")
+    if obs.get("fullpoll"):
+        prob, tag = judge_full_poller(setup, obs["fullpoll"])
+        if prob:
+            return prob + " (schedule %s)" % compact(obs["log"]), tag
     for k, (n, (complete, partial)) in enumerate(zip(obs["polled"], obs["poll_obs"])):
         if partial:
             return ("poll %d: num_results=%d counted the partly written file(s) %r under the schedule %s" % (
@@ -264,5 +318,56 @@ def progress_during_growth(rep, nsim=80):
                 rep.add_violation(case, prob, key=dict(tag=tag, kind="poll"))
             elif kind == "counterexample":
                 rep.note("model_imprecision: poller counterexample did not reproduce on the real code")
+    finally:
+        setup.close()
+
+
+def record_poller_program(setup, names):
+    """The operations one round of the full poller performs on results/ (on the quiescent crop)."""
+    s = fsproxy.Sched(setup.results)
+    s.names = names
+    out = []
+    s.add("poller", full_poller(setup, 1, out), 7002)
+    with fsproxy.Installed(s):
+        s.start()
+        s.finish_round_robin()
+    a = s.actors["poller"]
+    if a.exc is not None:
+        raise RuntimeError("recording the poller failed: %r" % (a.exc,))
+    return list(a.trace)
+
+
+def full_poller_config(rep, label, n, nb, wr, nsim, with_reaper=False):
+    """growers + the full progress poller (num_results, missing_results, is_ready_to_reap) as recorded programs."""
+    setup = Setup(n, nb)
+    try:
+        writers = [(w, b, 9200 + k) for k, (w, b) in enumerate(wr)]
+        progs, names = record_programs(setup, writers)
+        progs["poller"] = record_poller_program(setup, names)
+        allw = writers + [("poller", 0, 7002)]
+        consts = model_constants(progs, allw, setup.nb, npolls=0, with_reaper=with_reaper, max_sleeps=2, pollers={"poller"})
+        consts["BatchOf"] = tlc.Raw("(" + " @@ ".join('"%s" :> %d' % (w, b) for w, b, _ in allw) + ")")
+        r = run_model("MC_%s_chk" % label, consts, invariants=["TypeOK", "PollerNeverCountsPartial"], workers=max(2, common.NCPU // 4))
+        rep.add_tlc("%s: growers + full poller (PollerNeverCountsPartial)" % label, r)
+        todo = []
+        if r.violated == "PollerNeverCountsPartial":
+            todo.append(("counterexample", schedule_from_trace(r.trace)))
+        econsts = dict(consts)
+        econsts["Record"] = True
+        e = run_model("MC_%s_sim" % label, econsts, emit=True, simulate=dict(num=nsim), depth=120, seed=rep.seed, workers=1, invariants=[])
+        rep.add_tlc("%s simulate" % label, e)
+        seen = {}
+        for c in e.cases:
+            seen.setdefault(common.stable_hash(c["hist"]), c)
+        todo += [("schedule", [(a, k) for a, k in c["hist"]]) for c in seen.values()]
+        for kind, steps in todo:
+            obs = execute(setup, writers, steps, npolls=1, with_reaper=with_reaper, fullpoll=True)
+            prob, tag = judge(setup, obs, with_reaper)
+            case = dict(kind="fullpoll_" + kind, config=label, steps=[list(x) for x in steps])
+            rep.add_case(["fullpoll", label, steps], sample=None)
+            if obs["drift"]:
+                rep.note("model_drift in %s: %s" % (label, obs["drift"][0]))
+            if prob:
+                rep.add_violation(case, prob, key=dict(tag=tag, config=label))
     finally:
         setup.close()
